@@ -66,3 +66,13 @@ Definition request_from_line (ip6_check : str -> option str) (line : str) : res 
   | Err k m => Err k m
   | OutOfModel => OutOfModel
   end.
+
+(* ---- self.timeout_handle: None <-> the request timer is not armed ---- *)
+Definition timer_live (s : st) : bool := match timer s with TArmed => true | _ => false end.
+(* assignment to the handle: a new handle from loop.call_later (true) arms the timer; None (false) forgets it *)
+Definition upd_timer_handle (s : st) (armed : bool) : st :=
+  if armed then set_timer s TArmed else match timer s with TArmed => set_timer s TCancelled | _ => s end.
+(* the object before __init__ has run: only the fields the model adds to the Python attributes have a value *)
+Definition blank : st :=
+  {| buf := []; line_rcvd := false; await_titan := false; titan := None; content := [];
+     timer := TCancelled; tr := false; closing := false; sent := false; next_id := O; pending := [] |}.
